@@ -346,6 +346,7 @@ func (p *Proxy) handleCONNECT(r responder.Responder, proxyReq *http.Request) err
 		// Every exchange gets its own responder, so that no header, length or body of an
 		// earlier response on this tunnel can leak into a later one.
 		responder := responder.NewRawHTTPResponder(tlsConn)
+		responder.ForRequest(req)
 		if err := p.handleHTTP(responder, req); err != nil {
 			slog.Error("Error processing HTTP request in CONNECT tunnel", "host", proxyReq.Host, "error", err)
 		}
